@@ -61,15 +61,15 @@ type Params struct {
 }
 
 type Result struct {
-	OK           bool   `json:"ok"`
-	Violation    string `json:"violation,omitempty"`
-	Key          string `json:"key,omitempty"`
-	Inconclusive string `json:"inconclusive,omitempty"`
-	Overlap      bool   `json:"overlap"`
-	TimerExpiries int64 `json:"timer_expiries"`
-	Posted       int64  `json:"posted"`
-	Requests     int64  `json:"requests"`
-	Unanswered   int64  `json:"unanswered"`
+	OK            bool   `json:"ok"`
+	Violation     string `json:"violation,omitempty"`
+	Key           string `json:"key,omitempty"`
+	Inconclusive  string `json:"inconclusive,omitempty"`
+	Overlap       bool   `json:"overlap"`
+	TimerExpiries int64  `json:"timer_expiries"`
+	Posted        int64  `json:"posted"`
+	Requests      int64  `json:"requests"`
+	Unanswered    int64  `json:"unanswered"`
 }
 
 // ---------------------------------------------------------------- child
@@ -88,6 +88,8 @@ type smf struct {
 	seenSRR  map[uint32]bool
 	lastReq  []byte
 	stop     atomic.Bool
+	seqBase  uint32 // every SMF numbers its requests in a range of its own
+	foreign  string // first response seen with a sequence number this SMF never used
 }
 
 func (s *smf) reader(upf *stack.Stack, wg *sync.WaitGroup) {
@@ -120,6 +122,9 @@ func (s *smf) reader(upf *stack.Stack, wg *sync.WaitGroup) {
 		}
 		s.mu.Lock()
 		ch := s.waiters[m.Sequence()]
+		if q := m.Sequence(); (q <= s.seqBase || q > s.seq) && s.foreign == "" {
+			s.foreign = fmt.Sprintf("SMF %d (requests numbered %d..%d) received a %s with sequence number %d", s.idx, s.seqBase+1, s.seq, m.MessageTypeName(), q)
+		}
 		s.mu.Unlock()
 		if ch != nil {
 			select {
@@ -175,13 +180,14 @@ func runChild(p Params) (res Result) {
 	var smfs []*smf
 	var rwg sync.WaitGroup
 	for i := 0; i < p.SMFs; i++ {
-		s := &smf{idx: i, sock: st.Nodes[i], waiters: map[uint32]chan message.Message{}, cps: map[uint64]uint64{}, seenSRR: map[uint32]bool{}}
+		s := &smf{idx: i, sock: st.Nodes[i], waiters: map[uint32]chan message.Message{}, cps: map[uint64]uint64{}, seenSRR: map[uint32]bool{},
+			seq: uint32(i+1) * 1000000, seqBase: uint32(i+1) * 1000000}
 		smfs = append(smfs, s)
 		rwg.Add(1)
 		go s.reader(st, &rwg)
 	}
-	var stopAll atomic.Bool   // set when the UPF is being stopped: nobody may call into it any more
-	var pauseSMF atomic.Bool  // counting phase
+	var stopAll atomic.Bool  // set when the UPF is being stopped: nobody may call into it any more
+	var pauseSMF atomic.Bool // counting phase
 	var posted atomic.Int64
 	var postedUsage, postedDLDR atomic.Int64
 	var counting atomic.Bool
@@ -229,7 +235,9 @@ func runChild(p Params) (res Result) {
 				for _, ru := range rules {
 					ies = append(ies, ru.IE())
 				}
-				m := s.request(st, func(seq uint32) []byte { return stack.Marshal(message.NewSessionEstablishmentRequest(0, 0, 0, seq, 0, ies...)) }, &res)
+				m := s.request(st, func(seq uint32) []byte {
+					return stack.Marshal(message.NewSessionEstablishmentRequest(0, 0, 0, seq, 0, ies...))
+				}, &res)
 				if er, ok := m.(*message.SessionEstablishmentResponse); ok && er.UPFSEID != nil {
 					if f, err := er.UPFSEID.FSEID(); err == nil {
 						s.mu.Lock()
@@ -252,7 +260,9 @@ func runChild(p Params) (res Result) {
 					id := uint32(10 + r.Intn(3))
 					ies = append(ies, stack.RuleOp{Verb: "create", Kind: "QER", ID: id, QFI: 3}.IE(), stack.RuleOp{Verb: "remove", Kind: "QER", ID: id}.IE())
 				}
-				s.request(st, func(seq uint32) []byte { return stack.Marshal(message.NewSessionModificationRequest(0, 0, seid, seq, 0, ies...)) }, &res)
+				s.request(st, func(seq uint32) []byte {
+					return stack.Marshal(message.NewSessionModificationRequest(0, 0, seid, seq, 0, ies...))
+				}, &res)
 			case k < 8:
 				// retransmit the previous request byte for byte
 				if s.lastReq != nil {
@@ -565,6 +575,13 @@ func runChild(p Params) (res Result) {
 	_ = d.Close()
 	if st.Dead != nil {
 		fail(st.Dead.Key, "UPF fatal exit: %.600s", st.Dead.Msg)
+	}
+	for _, s := range smfs {
+		s.mu.Lock()
+		if s.foreign != "" {
+			fail("foreign-response", "a response went to a peer that never sent the request: %s", s.foreign)
+		}
+		s.mu.Unlock()
 	}
 	if c := stack.TakeCrash(); c != nil {
 		fail(c.Key, "UPF fatal exit: %.600s", c.Msg)
